@@ -110,14 +110,21 @@ Definition lookup (sc : list sentry) (alias : option N) (name : N) : option sent
 (* the context of a context byte and whether it is inside a URL *)
 Definition ctx_of (c : N) : N := match decode_ctx c with Some (ctx, _, _) => ctx | None => 15 end.
 
-(* the fast path conditions as the emitter evaluates them; proved equal to
-   the generated tables gen_macro_fastpath and gen_render_fastpath *)
+(* the fast path condition of the emitter (canOptimizeShowMacro, and the render
+   fast path since its repair), as a formula; the generated tables
+   gen_macro_fastpath and gen_render_fastpath are proved equal to it *)
 Definition fast_path (from ctx : N) : bool :=
   (ctx <=? gen_ContextMarkdown) && ((from =? ctx) || ((from =? gen_FormatMarkdown) && (ctx =? gen_ContextHTML))).
+
+(* lookup in a generated (format, context, taken) table *)
+Definition tbl_fast (tbl : list (N * N * bool)) (from ctx : N) : bool :=
+  existsb (fun t => match t with (f, c, b) => (f =? from) && (c =? ctx) && b end) tbl.
 
 Section Lower.
   Variable vals : N -> N -> shown.      (* value identifier -> context byte -> what Show does with it *)
   Variable fs : fileset.
+  (* the fast paths of the Show statement: for a macro call and for render, by (format, context) *)
+  Variable mfast rfast : N -> N -> bool.
 
   Definition arg_id (params : list N) (a : sarg) : option N :=
     match a with
@@ -141,7 +148,9 @@ Section Lower.
     match fuel with
     | O => None
     | S fuel' =>
-      let callee (e : sexp) : option (option (tfunc * bool)) :=   (* Some None = not a call; the flag: no fast path *)
+      (* Some None = not a call; else the function, whether {{ e }} in the context byte c takes the
+         fast path, and whether the macro is run as a native function value *)
+      let callee (c : N) (e : sexp) : option (option (tfunc * bool * bool)) :=
         match e with
         | EVal _ | EParam _ => Some None
         | ECall alias name args =>
@@ -154,7 +163,8 @@ Section Lower.
                                          | Some g => captured g (e_name en)
                                          | None => false
                                          end in
-                Some (Some (TFunc (m_fmt (e_macro en)) (m_rec (e_macro en)) body, cap))
+                Some (Some (TFunc (m_fmt (e_macro en)) (m_rec (e_macro en)) body,
+                            mfast (m_fmt (e_macro en)) (ctx_of c) && negb cap, cap))
               | None => None
               end
             else None
@@ -167,7 +177,7 @@ Section Lower.
             | Some _ => None
             | None =>
               match lower_nodes fuel' (scope_of fs p false) [] (f_body f) with
-              | Some body => Some (Some (TFunc (f_fmt f) (f_rec f) body, false))
+              | Some body => Some (Some (TFunc (f_fmt f) (f_rec f) body, rfast (f_fmt f) (ctx_of c), false))
               | None => None
               end
             end
@@ -187,20 +197,20 @@ Section Lower.
           match n with
           | SText txt u s => Some (TText txt u s)
           | SShow c e =>
-            match callee e with
+            match callee c e with
             | None => None
             | Some None =>
               match value e with Some id => Some (TShow c (vals id c)) | None => None end
-            | Some (Some (TFunc fmt rec body, nofast)) =>
-              if fast_path fmt (ctx_of c) && negb nofast then Some (TCall (TFunc fmt rec body) (ctx_of c))
-              else Some (TCallShow (TFunc fmt rec body) c fmt nofast)
+            | Some (Some (TFunc fmt rec body, fast, native)) =>
+              if fast then Some (TCall (TFunc fmt rec body) (ctx_of c))
+              else Some (TCallShow (TFunc fmt rec body) c fmt native)
             end
           | SVarShow c e =>
-            match callee e with
+            match callee c e with
             | None => None
             | Some None =>
               match value e with Some id => Some (TShow c (vals id c)) | None => None end
-            | Some (Some (TFunc fmt rec body, nofast)) => Some (TCallShow (TFunc fmt rec body) c fmt nofast)
+            | Some (Some (TFunc fmt rec body, _, native)) => Some (TCallShow (TFunc fmt rec body) c fmt native)
             end
           end in
         match first, lower_nodes fuel' sc params r with
@@ -227,15 +237,15 @@ Section Lower.
 End Lower.
 
 (* the main function of the template built from the file at path p *)
-Definition lower_main (vals : N -> N -> shown) (fs : fileset) (fuel : nat) (p : N) : option tfunc :=
+Definition lower_main (vals : N -> N -> shown) (mfast rfast : N -> N -> bool) (fs : fileset) (fuel : nat) (p : N) : option tfunc :=
   match get_file fs p with
   | None => None
   | Some f =>
     match f_extends f with
-    | None => lower_plain vals fs fuel p
+    | None => lower_plain vals fs mfast rfast fuel p
     | Some l =>
       match swap_extends fs p l with
-      | Some fs' => lower_plain vals fs' fuel l
+      | Some fs' => lower_plain vals fs' mfast rfast fuel l
       | None => None
       end
     end
@@ -280,7 +290,7 @@ Definition harness_conv (s : bytes) : list bytes := [[60; 109; 100; 62]; s; [60;
 (* build and run: lower the file set and run the main function with the writer w *)
 Definition build_and_run (vals : N -> N -> shown) (fs : fileset) (conv : option (bytes -> list bytes))
            (fuel : nat) (main : N) (w : writer) : option (wst * run_result) :=
-  match lower_main vals fs fuel main with
+  match lower_main vals (tbl_fast gen_macro_fastpath) (tbl_fast gen_render_fastpath) fs fuel main with
   | None => None
   | Some f => Some (run_main (showf_model conv) conv gen_conv_error_is_fatal w f)
   end.
